@@ -6,6 +6,12 @@
    order. Floating point: a rate / a roll is an IEEE-754 binary64 given by its bit pattern;
    every finite binary64 is an integer multiple of 2^-1074, so [f64_val] decodes it to that
    integer and comparisons are exact integer comparisons (no floating-point axioms).
+
+   The decision block runs at the FIRST POLL of the future returned by call(), not inside
+   call(): a run is therefore a list of first-poll events ([run_polls]); a future that is
+   never polled consumes nothing. [run] (requests polled as soon as they are created) is
+   the special case used before the poll order was scriptable; Proof/Chaos.v shows it is
+   [run_polls] on the immediate schedule.
    No proofs here. *)
 From TR Require Import Lib.Base.
 
@@ -40,18 +46,30 @@ Record config := {
   custom : bool;            (* CustomErrorFn (true) or NoErrorInjection (false) *)
   erate : option Z;         (* error_injector.error_rate(): 0.0 for NoErrorInjection *)
   lrate : option Z;         (* latency_rate *)
-  min_ms : Z;               (* min_latency.as_millis() *)
-  max_ms : Z                (* max_latency.as_millis() *)
+  min_ms : Z;               (* min_latency.as_millis() saturated at u64::MAX *)
+  max_ms : Z                (* max_latency.as_millis() saturated at u64::MAX *)
 }.
 
-(* the builder: error_fn(..).error_rate(r) and latency_rate(r) clamp; bounds given in
-   microseconds are truncated to whole milliseconds by as_millis() *)
-Definition mk_config (inj ebits lbits min_us max_us : Z) : config :=
+(* A latency bound of the script: v < 2^64 is a Duration of v microseconds; v >= 2^64 is a
+   Duration of (v - 2^64) nanoseconds (so that bounds beyond u64 milliseconds can be written).
+   [dur_floor_ms] is Duration::as_millis() (u128, truncating sub-millisecond parts);
+   [dur_ms] is what the service computes: `u64::try_from(as_millis()).unwrap_or(u64::MAX)`,
+   i.e. the truncation SATURATED at u64::MAX ms (fix 37727a1; before it the cast wrapped). *)
+Definition u64_max : Z := 2 ^ 64 - 1.
+Definition dur_floor_ms (v : Z) : Z :=
+  if v <? 2 ^ 64 then Z.max 0 v / 1000 else (v - 2 ^ 64) / 1000000.
+Definition dur_ms (v : Z) : Z := Z.min (dur_floor_ms v) u64_max.
+
+(* the builder (every route: error_fn(..).error_rate(r), error_rate(r).error_fn(..), the
+   setters in any order) clamps the rates; bit 0 of [flags] selects the injector kind, the
+   higher bits select the builder route in the harness and do not reach the configuration *)
+Definition mk_config (flags ebits lbits minv maxv : Z) : config :=
+  let inj := flags mod 2 in
   {| custom := negb (inj =? 0);
      erate := if inj =? 0 then Some 0 else clamp01 (f64_val ebits);
      lrate := clamp01 (f64_val lbits);
-     min_ms := min_us / 1000;
-     max_ms := max_us / 1000 |}.
+     min_ms := dur_ms minv;
+     max_ms := dur_ms maxv |}.
 
 (* ---- the decision block ---- *)
 Record decision := {
@@ -93,14 +111,20 @@ Definition decide (c : config) (st : list Z) : decision * list Z :=
   else
     ({| d_kinds := k1; d_bits := b1; d_err := err; d_delay := None; d_range := None |}, st1).
 
-(* ---- one request through the layer ---- *)
-Record request := { q_gap : Z; q_ik : Z; q_iv : Z }.   (* inner outcome: kind 0 Ok / 1 Err, value *)
+(* ---- one request through the layer ----
+   q_ik: bit 0 = inner outcome kind (0 Ok / 1 Err); bits 1-2 = when the harness first polls the
+   future (0 at once, 1 deferred until after the next request polled at once, 2/3 dropped
+   without ever being polled); bits 3.. = milliseconds the inner service takes to answer *)
+Record request := { q_gap : Z; q_ik : Z; q_iv : Z }.
+Definition q_kind (q : request) : Z := if (q_ik q) mod 2 =? 0 then 0 else 1.
+Definition q_mode (q : request) : Z := (q_ik q / 2) mod 4.
+Definition q_lat (q : request) : Z := Z.max 0 (q_ik q / 8).
 
 Record outcome := {
   o_dec : decision;
   o_ev_err : Z; o_ev_lat : Z; o_ev_pass : Z;     (* listener events emitted at the first poll *)
   o_inner : bool;                                 (* inner service called (within the run) *)
-  o_t_issue : Z;
+  o_t_issue : Z;                                  (* instant of the first poll *)
   o_t_inner : Z;                                  (* -1: not called *)
   o_res_kind : Z; o_res_val : Z;                  (* 0 Ok v, 1 Err v, -1 still pending *)
   o_t_done : Z
@@ -108,7 +132,7 @@ Record outcome := {
 
 Definition err_fn (req : Z) : Z := req + 7000.    (* the harness's error_fn *)
 
-(* request [i] issued (call + first poll) at [t]; the run ends at [t_end] *)
+(* request [i] first polled at [t]; the run ends at [t_end] *)
 Definition handle (c : config) (t_end i t : Z) (q : request) (st : list Z) : outcome * list Z :=
   let (d, rest) := decide c st in
   if d_err d then
@@ -121,16 +145,61 @@ Definition handle (c : config) (t_end i t : Z) (q : request) (st : list Z) : out
     let has_lat := match d_delay d with Some _ => true | None => false end in
     let ti := t + lat in                          (* tokio::time::sleep(latency_duration) *)
     if ti <=? t_end then
-      ({| o_dec := d; o_ev_err := 0; o_ev_lat := b2z has_lat; o_ev_pass := b2z (negb has_lat);
-          o_inner := true; o_t_issue := t; o_t_inner := ti;
-          o_res_kind := (if q_ik q =? 0 then 0 else 1); o_res_val := q_iv q;   (* inner's result, unchanged *)
-          o_t_done := ti |}, rest)
+      if ti + q_lat q <=? t_end then
+        ({| o_dec := d; o_ev_err := 0; o_ev_lat := b2z has_lat; o_ev_pass := b2z (negb has_lat);
+            o_inner := true; o_t_issue := t; o_t_inner := ti;
+            o_res_kind := q_kind q; o_res_val := q_iv q;   (* inner's result, unchanged *)
+            o_t_done := ti + q_lat q |}, rest)
+      else
+        (* the inner service was called and has not answered when the run ends *)
+        ({| o_dec := d; o_ev_err := 0; o_ev_lat := b2z has_lat; o_ev_pass := b2z (negb has_lat);
+            o_inner := true; o_t_issue := t; o_t_inner := ti; o_res_kind := -1; o_res_val := 0;
+            o_t_done := -1 |}, rest)
     else
+      (* still sleeping when the run ends; the PassedThrough event is emitted after the sleep *)
       ({| o_dec := d; o_ev_err := 0; o_ev_lat := b2z has_lat; o_ev_pass := b2z (negb has_lat);
           o_inner := false; o_t_issue := t; o_t_inner := -1; o_res_kind := -1; o_res_val := 0;
           o_t_done := -1 |}, rest).
 
-(* requests in order; request i is issued gap_i ms after request i-1 (requests overlap) *)
+(* ---- runs as lists of first polls ---- *)
+Record pev := { p_idx : Z; p_call : Z; p_poll : Z; p_req : request }.
+
+Fixpoint run_polls (c : config) (t_end : Z) (ps : list pev) (st : list Z)
+  : list (pev * outcome) * list Z :=
+  match ps with
+  | [] => ([], st)
+  | p :: ps' =>
+      let (o, st') := handle c t_end (p_idx p) (p_poll p) (p_req p) st in
+      let (os, st'') := run_polls c t_end ps' st' in
+      ((p, o) :: os, st'')
+  end.
+
+(* call() instants: request i is created gap_i ms after request i-1 (requests overlap) *)
+Fixpoint calls (i t : Z) (qs : list request) : list pev :=
+  match qs with
+  | [] => []
+  | q :: qs' =>
+      let t' := t + Z.max 0 (q_gap q) in
+      {| p_idx := i; p_call := t'; p_poll := -1; p_req := q |} :: calls (i + 1) t' qs'
+  end.
+
+Definition at_poll (t : Z) (p : pev) : pev :=
+  {| p_idx := p_idx p; p_call := p_call p; p_poll := t; p_req := p_req p |}.
+
+(* the harness's polling discipline: a request of mode 0 is polled when created and, right after
+   it, every deferred request (most recent first); mode 1 is deferred; modes 2/3 are dropped
+   unpolled; what is still deferred after the last call() is polled then (most recent first) *)
+Fixpoint polls (cs : list pev) (defer : list pev) (t_last : Z) : list pev :=
+  match cs with
+  | [] => map (at_poll t_last) defer
+  | p :: cs' =>
+      let m := q_mode (p_req p) in
+      if m =? 0 then at_poll (p_call p) p :: map (at_poll (p_call p)) defer ++ polls cs' [] (p_call p)
+      else if m =? 1 then polls cs' (p :: defer) (p_call p)
+      else polls cs' defer (p_call p)
+  end.
+
+(* requests in order, each polled as soon as it is created *)
 Fixpoint run (c : config) (t_end i t : Z) (qs : list request) (st : list Z) : list outcome * list Z :=
   match qs with
   | [] => ([], st)
@@ -145,7 +214,7 @@ Fixpoint run (c : config) (t_end i t : Z) (qs : list request) (st : list Z) : li
 Definition total_gap (qs : list request) : Z :=
   fold_right (fun q a => Z.max 0 (q_gap q) + a) 0 qs.
 
-(* the decisions of the first n requests as a function of (config, stream) alone *)
+(* the decisions of the first n polled requests as a function of (config, stream) alone *)
 Fixpoint decisions (c : config) (n : nat) (st : list Z) : list decision * list Z :=
   match n with
   | O => ([], st)
@@ -156,18 +225,28 @@ Fixpoint decisions (c : config) (n : nat) (st : list Z) : list decision * list Z
   end.
 
 (* ---- script interface ----
-   script = [inj_kind; error_rate bits; latency_rate bits; min_latency us; max_latency us; seed;
-             tail_ms; n; (gap_ms, inner_kind, inner_val)*n] ++ oracle (the logged draw values)
-   trace  = [1; per request 14 ints; number of draws consumed; the draws consumed] *)
+   script = [flags; error_rate bits; latency_rate bits; min_latency; max_latency; seed;
+             tail_ms; n; (gap_ms, ik, inner_val)*n] ++ oracle (the logged draw values)
+   trace  = [3; per request 15 ints; number of draws consumed; the draws consumed] *)
 Definition pad3 (l : list Z) : list Z :=
   [nth 0 l (-1); nth 1 l (-1); nth 2 l (-1)].
 
-Definition enc (o : outcome) : list Z :=
+Definition enc (p : pev) (o : outcome) : list Z :=
   let d := o_dec o in
   [Z.of_nat (length (d_kinds d))] ++ pad3 (d_kinds d) ++
   [o_ev_err o; o_ev_lat o; o_ev_pass o;
    match d_delay d with Some x => x | None => -1 end;
-   b2z (o_inner o); o_t_issue o; o_t_inner o; o_res_kind o; o_res_val o; o_t_done o].
+   b2z (o_inner o); p_call p; o_t_issue o; o_t_inner o; o_res_kind o; o_res_val o; o_t_done o].
+
+(* a future that was dropped without being polled *)
+Definition enc_unpolled (p : pev) : list Z :=
+  [0; -1; -1; -1; 0; 0; 0; -1; 0; p_call p; -1; -1; -1; 0; -1].
+
+Definition enc_call (os : list (pev * outcome)) (p : pev) : list Z :=
+  match find (fun po => p_idx (fst po) =? p_idx p) os with
+  | Some po => enc (fst po) (snd po)
+  | None => enc_unpolled p
+  end.
 
 Definition requests_of (s : list Z) (n : nat) : list request :=
   map (fun i => {| q_gap := zn s (8 + 3 * i); q_ik := zn s (8 + 3 * i + 1);
@@ -179,6 +258,7 @@ Definition run_script (s : list Z) : list Z :=
   let qs := requests_of s n in
   let t_end := fold_left (fun a q => a + Z.max 0 (q_gap q)) qs 0 + Z.max 0 (zn s 6) in
   let oracle := skipn (8 + 3 * n) s in
-  let (os, _) := run c t_end 0 0 qs oracle in
-  let bits := flat_map (fun o => d_bits (o_dec o)) os in
-  [1] ++ flat_map enc os ++ [Z.of_nat (length bits)] ++ bits.
+  let cs := calls 0 0 qs in
+  let (os, _) := run_polls c t_end (polls cs [] 0) oracle in
+  let bits := flat_map (fun po => d_bits (o_dec (snd po))) os in
+  [3] ++ flat_map (enc_call os) cs ++ [Z.of_nat (length bits)] ++ bits.
